@@ -210,6 +210,11 @@ type reassemblyQueue struct {
 	useInterleaving bool
 	nBytes          uint64
 	maxEntries      uint32
+
+	// highest unordered MID an I-FORWARD-TSN has announced as skipped; fragments of
+	// that message (or an earlier one) that arrive afterwards are never completed.
+	unorderedMIDSkipped    uint32
+	hasUnorderedMIDSkipped bool
 }
 
 var (
@@ -382,6 +387,13 @@ func (r *reassemblyQueue) pushIData(chunk *chunkPayloadData) (bool, error) {
 
 func (r *reassemblyQueue) pushUnorderedIData(chunk *chunkPayloadData) (bool, error) {
 	if r.hasQueuedUnorderedMID(chunk.messageIdentifier) {
+		return false, nil
+	}
+
+	// A fragment of a message the sender has abandoned can still be on its way when
+	// the I-FORWARD-TSN arrives (its TSN lies beyond the new cumulative TSN). Stored
+	// now, it would never be completed, purged or read.
+	if r.hasUnorderedMIDSkipped && sna32LTE(chunk.messageIdentifier, r.unorderedMIDSkipped) {
 		return false, nil
 	}
 
@@ -715,6 +727,11 @@ func (r *reassemblyQueue) forwardTSNForOrderedMID(lastMID uint32) {
 }
 
 func (r *reassemblyQueue) forwardTSNForUnorderedMID(lastMID uint32) {
+	if !r.hasUnorderedMIDSkipped || sna32LT(r.unorderedMIDSkipped, lastMID) {
+		r.unorderedMIDSkipped = lastMID
+		r.hasUnorderedMIDSkipped = true
+	}
+
 	for mid, set := range r.unorderedMIDMap {
 		if sna32LTE(mid, lastMID) {
 			for _, c := range set.chunks {
